@@ -1,6 +1,5 @@
 /-
-C05 — the bodies that `evalBody` does not interpret yet (tab-stop loops, REP, print,
-resize): their translated statement skeleton is pinned literally, so that an edit of one of these Go
+C05 — the bodies that `evalBody` does not interpret yet (tab-stop loops, REP, resize): their translated statement skeleton is pinned literally, so that an edit of one of these Go
 bodies changes `Gen/TermBodies.lean` and breaks the corresponding `shape_<fn>` (then the
 correspondence run decides whether the model still agrees). Weaker than `body_<fn>` in
 Props/C05Bodies.lean: it says WHAT the source is, not that the model equals it.
@@ -50,9 +49,6 @@ theorem shape_rep : TermBodies.stmt_rep =
  .ret
  .skip)
  (.unknown "vt.activeScreen[vt.cursor.row][vt.cursor.col+column(i)].Character = ch.Character"))))))) := rfl
-
-theorem shape_print : TermBodies.stmt_print =
- (.unknown "{ if len(seq.Grapheme) == 1 && vt.charsets.designations[vt.charsets.selected] == decSpecialAndLineDrawing { shifted, ok := decSpecial[seq.Grapheme[0]] if ok { seq.Grapheme = string(shifted) } } if vt.charsets.singleShift { vt.charsets.selected = vt.charsets.saved } w := seq.Width // handle wrapping var wrap bool if vt.lastCol { wrap = true } if vt.cursor.col+column(w)-1 > vt.margin.right { wrap = true } if !vt.mode.decawm { wrap = false } if wrap { vt.lastCol = false vt.activeScreen[vt.cursor.row][vt.width()-1].wrapped = true vt.nel() } col := vt.cursor.col rw := vt.cursor.row if vt.mode.irm { line := vt.activeScreen[rw] for i := vt.margin.right; i >= col+column(w); i -= 1 { line[i] = line[i-column(w)] } } if col > column(vt.width())-1 { col = column(vt.width()) - 1 } if rw > row(vt.height()-1) { rw = row(vt.height() - 1) } if w == 0 { if col-1 < 0 { return } return } cell := cell{ Cell: vaxis.Cell{ Character: vaxis.Character{ Grapheme: seq.Grapheme, Width: seq.Width, }, Style: vt.cursor.Style, }, } vt.activeScreen[rw][col] = cell for i := column(1); i < column(w); i += 1 { if col+i > vt.margin.right { break } vt.activeScreen[rw][col+i].Character.Grapheme = \" \" vt.activeScreen[rw][col+i].Style = vt.cursor.Style } switch { case !vt.mode.decawm && vt.cursor.col+column(w) > vt.margin.right: default: vt.cursor.col += column(w) } if vt.cursor.col > vt.margin.right+1 { vt.cursor.col = vt.margin.right + 1 } if vt.cursor.col >= vt.margin.right+1 && vt.mode.decawm { vt.lastCol = true } }") := rfl
 
 theorem shape_resize : TermBodies.stmt_resize =
  (.seq (.unknown "primary := vt.primaryScreen")
